@@ -59,6 +59,7 @@ pub struct Report {
     pub replay_dir: PathBuf,
     /// when set, `announce` writes the case about to be run (attribution of aborts)
     pub progress_file: Option<PathBuf>,
+    pub progress_handle: std::cell::RefCell<Option<std::fs::File>>,
     /// per-case digests compared across processes by the driver (C14)
     pub digests: Vec<String>,
 }
@@ -79,13 +80,25 @@ impl Report {
             max_samples: 3,
             replay_dir,
             progress_file: None,
+            progress_handle: std::cell::RefCell::new(None),
             digests: vec![],
         }
     }
     /// announce the case about to run, so that a process abort can be attributed to it
     pub fn announce(&self, what: &str) {
+        // one open handle, overwritten in place and NUL-terminated (no create/truncate per case:
+        // that made 16 workers IO-bound); the driver reads up to the first NUL
+        use std::io::{Seek, SeekFrom, Write};
         if let Some(p) = &self.progress_file {
-            let _ = std::fs::write(p, what);
+            let mut h = self.progress_handle.borrow_mut();
+            if h.is_none() {
+                *h = std::fs::OpenOptions::new().create(true).write(true).truncate(true).open(p).ok();
+            }
+            if let Some(f) = h.as_mut() {
+                let _ = f.seek(SeekFrom::Start(0));
+                let _ = f.write_all(what.as_bytes());
+                let _ = f.write_all(&[0u8]);
+            }
         }
     }
     pub fn count(&mut self, k: &str) {
